@@ -1204,6 +1204,14 @@ def expr_role(ctx: Ctx, f: FuncInfo, e: Optional[ast.AST], _depth: int = 0) -> O
         return None
     if isinstance(e, ast.Attribute) and isinstance(e.value, ast.Name) and e.value.id == sc.selfname:
         return ROLE_BY_NAME.get(e.attr)
+    if isinstance(e, ast.Attribute) or (isinstance(e, ast.Subscript) and isinstance(e.slice, ast.Constant) and isinstance(e.slice.value, int)):
+        # a component of a record / tuple built in this function: `callbacks.end_callback`, `pair[0]` - the role of what was filed there
+        lv = ctx.vals.leaves(f, None, e)
+        if lv and not any(x[2] is e for x in lv):
+            roles = {expr_role(ctx, fr_, v_, _depth + 1) for fr_, _e2, v_ in lv}
+            roles.discard("NONE")
+            return roles.pop() if len(roles) == 1 else None
+        return None
     if isinstance(e, ast.IfExp):
         a, b = expr_role(ctx, f, e.body, _depth + 1), expr_role(ctx, f, e.orelse, _depth + 1)
         if a == b or b in ("NONE", None):
@@ -1218,6 +1226,27 @@ def expr_role(ctx: Ctx, f: FuncInfo, e: Optional[ast.AST], _depth: int = 0) -> O
         if cal.kind == "ctor" and cal.name.endswith("Semaphore"):
             return "MAPSEM"
     return None
+
+
+_FORWARD_ROLES = {"END", "CANCEL"}
+
+
+def _holds_role(ctx: Ctx, f: FuncInfo, role: str) -> bool:
+    """does function f hold a value of this role: one of its parameters, or a field its class stores it in"""
+    if any(param_role(f, p) == role for p in f.param_names()):
+        return True
+    if f.cls is not None:
+        for k in ctx.prog.mro(f.cls):
+            for m in k.methods.values():
+                sn = m.param_names()[0] if m.param_names() else None
+                for x in ast.walk(m.node):
+                    if isinstance(x, ast.Attribute) and isinstance(x.ctx, ast.Store) and isinstance(x.value, ast.Name) and x.value.id == sn and ROLE_BY_NAME.get(x.attr) == role:
+                        return True
+    return False
+
+
+def _unpassable(t: FuncInfo) -> Set[str]:
+    return set()
 
 
 def r_wiring(ctx: Ctx, rule: str, roles: Set[str], floor: int, what: str):
@@ -1262,6 +1291,14 @@ def r_wiring(ctx: Ctx, rule: str, roles: Set[str], floor: int, what: str):
                     prole = param_role(t, pname)
                     arg = ctx.call_arg(node, t, pname)
                     if arg is None:
+                        # FORWARDED: a callback of the request that the callee could take and the caller holds is passed on (left
+                        # out, the callee's default None stands in and the callback never runs)
+                        if prole in roles and prole in _FORWARD_ROLES and t is not f and _holds_role(ctx, f, prole) and pname not in _unpassable(t):
+                            opaque = [k for k in node.keywords if k.arg is None and not (isinstance(k.value, ast.Name) and k.value.id in ctx.an.scope(fr).params)]
+                            n_checked += 1
+                            rep.ob(rule, f"the request's {prole} callback is passed on to parameter `{pname}` of {t.short}", False, func=f, construct=node,
+                                   detail=(f"`**{ast.unparse(opaque[0].value)[:40]}` hides what is passed" if opaque else f"`{pname}` is left at its default") +
+                                          ": the callback the request carries would never run")
                         continue
                     afr = f
                     if env is not None or id(arg) in ctx.an.syn_arg_frame:
